@@ -10,7 +10,9 @@ phase from the candidates when its ordered partner (FCC_L12 for FCC_A1) is prese
 identical site fractions on its substitutional sublattices IS the disordered matrix (same Gibbs energy by
 construction of the partitioned model) and is accepted, an ordered state is rejected.  Rejects are counted.
 
-Monitors (all on the real code; every observation is a return value of a public kawin function):
+Monitors (all on the real code; every observation is a return value of a kawin function - getLocalEq,
+getInterdiffusivity, getTracerDiffusivity, FreeEnergyHessian.dMudX, Mobility.mobility_matrix /
+mobility_from_composition_set called with the object's own callables):
   call_succeeds      getLocalEq / dMudX / mobility_matrix / getTracerDiffusivity / getInterdiffusivity return without
                      raising at an admitted point
   hessian_fd         FreeEnergyHessian.dMudX(mu, composition set, ref) for EVERY element as reference equals the
@@ -105,7 +107,8 @@ ASSUMPTIONS = [
 ]
 
 # ------------------------------------------------------------------------------------------------ tolerances
-TOL_FD = 1e-4          # worst on the unchanged tree (quick, seeds 0,1,2,3,7): 1.7e-6, solver-noise limited
+TOL_FD = 1e-4          # worst on the unchanged tree: 5.5e-7 (quick, seeds 0,1,2,3,7), 1.0e-6 (thorough, seeds 0,1);
+                       # solver-noise limited; seeded breaks shift entries by 1e-3..1
 TOL_FD_CONSIST = 5e-7  # two-h consistency needed before the FD value is used as an oracle
 TOL_SYM = 1e-8
 TOL_SMOOTH_D4 = 4e-6   # fourth difference of the analytic curvature over the widest stencil, relative, for h = 3.2e-2 x
